@@ -37,7 +37,7 @@ def main():
     kn = tuple(sorted(known))
     chk = common.Check(PROP, __doc__)
     r = runner.explore("harness.fam_nbdiff", fam_nbdiff.shards(t, (PROP,), kn),
-                       nproc=common.nproc(), budget_s=500 if t == "quick" else 4800)
+                       nproc=common.nproc(), budget_s=800 if t == "quick" else 4800)
     chk.add("notebook-diff-patch", r)
     chk.bounds.update(fam_nbdiff.BOUNDS[t])
     chk.outside += fam_nbdiff.OUTSIDE
